@@ -80,6 +80,8 @@ impl Chain {
         pt.add_program("mocks", mocks::ID, processor!(tap::mocks_entry));
         pt.add_program("titan_noop", TITAN, processor!(tap::noop_entry));
         pt.add_program("noop", NOOP_PROG, processor!(tap::noop_entry));
+        // stateful venue stand-ins at the venue program ids (see venue.rs)
+        pt.add_program("kamino_standin", crate::venue::KAMINO, processor!(crate::venue::kamino_entry));
         let payer = kp(seed, 0xFEE);
         pt.add_account(
             payer.pubkey(),
